@@ -324,7 +324,7 @@ Proof.
   destruct (best c (boundaries rs excluded)) as [d|].
   2:{ exfalso. specialize (Hb 0). assert (c < 0) by (apply Hb; now left). lia. }
   destruct Hb as (Hd & Hdc & Hmax). exists d. split.
-  - unfold reps. apply filter_In. split; auto.
+  - unfold reps. apply nodup_In. apply filter_In. split; auto.
     destruct (memN d excluded) eqn:E; auto. apply memN_in in E.
     (* d excluded: then d <> c, so d+1 <= c is a greater boundary *)
     assert (d <> c) by (intro; subst; auto).
